@@ -200,8 +200,8 @@ const seqAxioms = `
 (assert (forall ((s $S)) (! (= (drop_$S s 0) s) :pattern ((drop_$S s 0)))))
 (assert (forall ((s $S) (i Int) (v $E)) (! (= (len_$S (upd_$S s i v)) (len_$S s)) :pattern ((upd_$S s i v)))))
 (assert (forall ((s $S) (i Int) (v $E) (j Int)) (! (= (at_$S (upd_$S s i v) j) (ite (= i j) v (at_$S s j))) :pattern ((at_$S (upd_$S s i v) j)))))
-(assert (forall ((a $S) (b $S)) (! (= (eq_$S a b) (and (= (len_$S a) (len_$S b)) (= (isnil_$S a) (isnil_$S b)) (forall ((i Int)) (! (=> (and (<= 0 i) (< i (len_$S a))) (= (at_$S a i) (at_$S b i))) :pattern ((at_$S a i)) :pattern ((at_$S b i)))))) :pattern ((eq_$S a b)))))
-(assert (forall ((a $S) (b $S)) (! (=> (eq_$S a b) (= a b)) :pattern ((eq_$S a b)))))
+(assert (forall ((a $S) (b $S)) (! (= (eq_$S a b) (and (= (len_$S a) (len_$S b)) (forall ((i Int)) (! (=> (and (<= 0 i) (< i (len_$S a))) (= (at_$S a i) (at_$S b i))) :pattern ((at_$S a i)) :pattern ((at_$S b i)))))) :pattern ((eq_$S a b)))))
+(assert (forall ((a $S) (b $S)) (! (=> (and (eq_$S a b) (= (isnil_$S a) (isnil_$S b))) (= a b)) :pattern ((eq_$S a b)))))
 `
 
 // smallSeq: bounded datatype sequences (length <= 2), all operations defined. Never used to prove.
